@@ -90,14 +90,17 @@ fn contains_addr(hay: &[u8], a: &revm::primitives::Address) -> bool {
 pub struct CaseStats {
     pub executed_txs: u64,
     pub nontrivial: bool,
+    /// gas used by the first transaction in the plain run (None: rejected)
+    pub first_gas_used: Option<u64>,
 }
 
 /// Execute one case plain and monitored; push violations of all online properties into `rep`
 /// tagged by property id in the signature prefix.
 pub fn check_case(case: &Case, rep: &mut Report, snapshots: bool, short_circuit: Option<u64>) -> CaseStats {
     let cj = || case.to_json();
-    let mut stats = CaseStats { executed_txs: 0, nontrivial: false };
+    let mut stats = CaseStats { executed_txs: 0, nontrivial: false, first_gas_used: None };
     let plain = run_history(case, None, true);
+    stats.first_gas_used = plain.outcomes.first().and_then(|o| o.gas_used());
     if let Some((i, p)) = &plain.panic {
         report_panic(rep, "C25", p, json!({"case": cj(), "tx_index": i, "mode": "plain"}));
         return stats;
@@ -558,6 +561,28 @@ pub fn run_generated(ctx: &Ctx, n: u64, wl: &Workload, bias: fn(&mut Rng, &mut C
             let sc = None;
             let st = check_case(&case, rep, wl.snapshots, sc);
             rep.cell("cases_per_spec", spec_name(spec));
+            // gas-limit sweep: the same case again with limits between the intrinsic gas and what
+            // the full run used, so that frames run out of gas at many different instructions
+            // (where reverts, refunds and the order of checks inside an instruction are decided)
+            if rng.chance(1, 20) {
+                if let Some(used) = st.first_gas_used {
+                    let (i, f) = intrinsic_gas(case.spec, &case.txs[0]);
+                    let lo = i.max(f) as u64;
+                    if used > lo && used - lo < 2_000_000 {
+                        for k in 0..10u64 {
+                            let mut c2 = case.clone();
+                            c2.txs.truncate(1);
+                            c2.txs[0].gas_limit = if k < 3 { used - 1 - k.min(used - lo - 1) } else { lo + rng.below(used - lo) };
+                            rep.eval();
+                            rep.count("gas_limit_sweep_cases");
+                            let s2 = check_case(&c2, rep, wl.snapshots, sc);
+                            if s2.nontrivial {
+                                rep.nontrivial(c2.hash());
+                            }
+                        }
+                    }
+                }
+            }
             if st.nontrivial {
                 rep.nontrivial(case.hash());
                 if rep.samples.len() < 2 && k > 2 {
